@@ -9,6 +9,7 @@ import (
 	"bytes"
 	"encoding/json"
 	"fmt"
+	"strconv"
 	"strings"
 
 	jsonata "github.com/blues/jsonata-go"
@@ -129,6 +130,63 @@ func runC05(c *ctx) {
 			c.sample(map[string]interface{}{"program": prog, "history": history})
 		}
 	}
+	// process-wide state keyed by an argument (a cache of parsed pictures, patterns, formats ...): the same call with other
+	// values in between.  A freshly compiled Expr would share such state, so the reference here is the first outcome seen
+	// for the same (program, input) and the Lean model (which has no state at all).
+	type argHist struct {
+		prog string
+		pics []string
+		vals []map[string]interface{}
+	}
+	tzs := []string{"+0100", "+0530", "-0200", "+1300", "+0000", "-0945", "-1200", "+1200", "+0030"}
+	var tzVals, numVals, strVals []map[string]interface{}
+	for i, tz := range tzs {
+		tzVals = append(tzVals, map[string]interface{}{"v": 1.5e12 + float64(i)*3.6e6, "tz": tz})
+	}
+	for _, x := range []float64{0, 1, -1, 1234.5, -1234.5, 0.5, 1e6, -0.004, 12, 1e-7, 99.995} {
+		numVals = append(numVals, map[string]interface{}{"v": x})
+	}
+	for _, x := range []string{"2018-03-23T16:03:36.617+05:30", "2018-03-23T16:03:36Z", "2018-03-23", "2018", "23/03/2018", "x", "12:30 pm", "1970-01-01T00:00:00.000Z"} {
+		strVals = append(strVals, map[string]interface{}{"v": x})
+	}
+	hists := []argHist{
+		{"$fromMillis(v, p, tz)", []string{"[ZZ]", "[zZ]", "[ZN]", "[H01]:[m01] [ZZ]", "[Y]-[M01]-[D01] [ZZ]|[Z]", "[Z0]", "[z]", "[D1o] [MNn] [ZZ,4]", "[h]#[P] [Z01:01t]", "[Y,2] [ZN,3]", "[F] [W] [ZZ]"}, tzVals},
+		{"$formatNumber(v, p)", []string{"#,##0.00", "0.0e0", "#0.###;(#0.###)", "00%", "#,###", "0.00;-0.00", "##0.0##e0", "#‰"}, numVals},
+		{"$toMillis(v, p)", []string{"[Y]-[M01]-[D01]T[H01]:[m]:[s].[f001][Z01:01t]", "[Y]-[M01]-[D01]", "[D01]/[M01]/[Y]", "[Y]", "[h]:[m01] [P]"}, strVals},
+		{"$formatBase(v, p)", []string{"2", "16", "36", "10"}, numVals},
+		{"$pad($string(v), p, \"*\")", []string{"8", "-8", "3"}, numVals},
+	}
+	for _, h := range hists {
+		for _, pic := range h.pics {
+			var picv interface{} = pic
+			if h.prog[1] == 'f' && h.prog[2] == 'o' && len(pic) <= 2 && pic[0] >= '0' && pic[0] <= '9' || h.prog[1] == 'p' {
+				f, _ := strconv.ParseFloat(pic, 64)
+				picv = f
+			}
+			first := map[string]string{}
+			var history []string
+			for step := 0; step < c.scale(14, 40); step++ {
+				base := h.vals[r.intn(len(h.vals))]
+				in := map[string]interface{}{"p": picv}
+				for k, v := range base {
+					in[k] = v
+				}
+				key := valueSexp(in)
+				got := goEval(h.prog, in)
+				history = append(history, fmt.Sprintf("%s on %s -> %s", h.prog, trunc(key, 60), trunc(got.outcome, 60)))
+				if len(history) > 8 {
+					history = history[1:]
+				}
+				if f, seen := first[key]; seen && f != got.outcome {
+					c.disagree(Disagreement{Kind: "history-dependent-outcome", Prog: h.prog, Input: in, InputS: key, History: append([]string{}, history...),
+						Go: got.outcome, Model: "the first outcome of the same call in this process: " + f})
+					break
+				}
+				first[key] = got.outcome
+				c.diffEval(h.prog, in, "argument-keyed-state")
+			}
+		}
+	}
 }
 
 // unorderedSensitive: the program's result depends on Go's unspecified map iteration order
@@ -209,7 +267,7 @@ func sameOutcomeClass(a, b string) bool {
 
 // ---- C07 ------------------------------------------------------------------------
 
-var c07Patterns = []string{"$", "items", "items[id > 0]", "items[0]", "b", "**", "*", "items.a", "nothing", "items[k = 1]", "$.items", "b.c", "items[-1]", "**[id = 1]"}
+var c07Patterns = []string{"e", "items.m", "items.m", "$", "items", "items[id > 0]", "items[0]", "b", "**", "*", "items.a", "nothing", "items[k = 1]", "$.items", "b.c", "items[-1]", "**[id = 1]"}
 var c07Updates = []string{`{"z": 1}`, `{"k": k + 10}`, `{"s": "new", "t": id}`, `{}`, `{"k": "str"}`, `{"n": $count($keys($))}`, `"bad"`, `[1]`, `nothing`, `{"id": id * 2, "k": k}`}
 var c07Deletes = []string{"", `"k"`, `["k", "s"]`, `"nope"`, `[]`, `1`, `["k", 1]`, `nothing`, `"id"`}
 var c07Foreign = []string{"$$", "$$.items", "$v", "$$.b", "$v.items[0]"}
@@ -429,7 +487,9 @@ func runTotality(c *ctx, prop string) {
 	if prop == "C10" {
 		// malformed input bytes for EvalBytes
 		e := compileOrNil("$")
-		for _, bad := range []string{"", "{", "[1,", "nul", "{\"a\":}", "\"abc", "01", "1 2", "{'a':1}", "\xff", "[1,]", "NaN", "Infinity", "-", "+1", "1e", "\"\\x\"", "\"\\ud800\""} {
+		for _, bad := range []string{"", "{", "[1,", "nul", "{\"a\":}", "\"abc", "01", "1 2", "{'a':1}", "\xff", "[1,]", "NaN", "Infinity", "-", "+1", "1e", "\"\\x\"", "\"\\ud800\"",
+			// a complete value followed by more text (json.Decoder.More() is false before ] and })
+			"{\"a\":1}}", "[1,2,3]]", "\"text\"]", "12.5 }", "1 ]", "{} }x", "[] ] []", "null}", "true]", "{\"a\":1} {\"b\":2}", "1 2 ]", "[1],", "{}\n\n}"} {
 			out, err := e.EvalBytes([]byte(bad))
 			c.note("evalbytes\x00"+bad, "malformed-bytes", true)
 			var tmp interface{}
